@@ -366,7 +366,15 @@ func (e *wshsEnv) handshake(p wshsPlan) {
 	fmt.Fprintf(e.w, "< req %s\n", res.req)
 	fmt.Fprintf(e.w, "< hs %s %s %d %d\n", wshsErr(err), state, pending, pc)
 	fmt.Fprintf(e.w, "< frame %s\n", frame)
-	fmt.Fprintf(e.w, "< srvextra %d\n", res.extra)
+	// bytes the server received unasked, plus bytes of an earlier session still sitting in the write buffer (they would be
+	// sent in front of the first frame of this session)
+	stale := 0
+	if err == nil {
+		if d := e.s.VerifDst(); d != nil {
+			stale = d.ReadLen() + d.WriteLen()
+		}
+	}
+	fmt.Fprintf(e.w, "< srvextra %d\n", res.extra+stale)
 }
 
 func wshsRun(script []string, w *bufio.Writer) {
@@ -394,6 +402,12 @@ func wshsRun(script []string, w *bufio.Writer) {
 				panic(err)
 			}
 			_, _ = e.s.NextFrame()
+			if len(f) > 1 && f[1] == "dst" {
+				// ... and whose transport failed while the pong was being flushed (same observable state, plus stale bytes in
+				// the write buffer)
+				ms.writeErr = io.ErrClosedPipe
+				_ = e.s.Flush() // fails: the pong stays queued and its encoding stays in the write buffer
+			}
 			fmt.Fprintf(w, "< stale %s %d\n", wshsState(e.s), e.s.Pending())
 		case "hs":
 			e.handshake(wshsParse(f[1:]))
@@ -538,7 +552,7 @@ func wshsGen(r *rng, maxops int, w *bufio.Writer) {
 	n := 1 + r.intn(maxops)
 	for i := 0; i < n; i++ {
 		if r.intn(5) == 0 {
-			fmt.Fprintf(w, "! stale\n")
+			fmt.Fprintf(w, "! stale%s\n", r.pickS("", " dst"))
 		}
 		mode := r.pickS("sync", "sync", "async")
 		head, status, upg, acc, parse := wshsResponse(r, r.intn(3) == 0)
